@@ -25,6 +25,15 @@ def base_formula(fc):
     kind = fc['kind']
     if kind == 'hand':
         F = CNF()
+        names_ = fc.get('names')
+        if names_:
+            # variables created one by one with labels chosen by the caller: labels may repeat, may equal the default
+            # name of another variable, may be empty; anonymous variables in between
+            for i, nm in enumerate(names_[:fc['n']], start=1):
+                if nm is None:
+                    F.update_variable_number(i)
+                else:
+                    F.new_variable(nm)
         F.update_variable_number(fc['n'])
         for c in fc['clauses']:
             F.add_clause(list(c))
@@ -49,6 +58,21 @@ def apply(F, t):
     import cnfgen
     from cnfgen.graphs import BipartiteGraph
     name = t['name']
+    if t.get('call') == 'keyword':
+        # the documented parameter names, passed by keyword (a renamed parameter is an interface change)
+        kw = {'xor': (cnfgen.XorSubstitution, dict(k=t.get('k'))), 'or': (cnfgen.OrSubstitution, dict(k=t.get('k'))),
+              'maj': (cnfgen.MajoritySubstitution, dict(k=t.get('k'))), 'eq': (cnfgen.AllEqualSubstitution, dict(k=t.get('k'))),
+              'neq': (cnfgen.NotAllEqualSubstitution, dict(k=t.get('k'))), 'one': (cnfgen.ExactlyOneSubstitution, dict(k=t.get('k'))),
+              'exact': (cnfgen.ExactlyKSubstitution, dict(N=t.get('k'), k=t.get('K'))),
+              'atleast': (cnfgen.AtLeastKSubstitution, dict(N=t.get('k'), k=t.get('K'))),
+              'atmost': (cnfgen.AtMostKSubstitution, dict(N=t.get('k'), k=t.get('K'))),
+              'anybut': (cnfgen.AnythingButKSubstitution, dict(N=t.get('k'), k=t.get('K'))),
+              'lift': (cnfgen.FormulaLifting, dict(k=t.get('k')))}
+        if name in kw:
+            fn, args = kw[name]
+            return fn(F=F, **args)
+        if name in ('xorcomp', 'majcomp'):
+            return cnfgen.VariableCompression(F=F, B=gg.build_bipartite(t['B']), function=fresh('xor' if name == 'xorcomp' else 'maj'))
     if name == 'xor':
         return cnfgen.XorSubstitution(F, t['k'])
     if name == 'or':
@@ -222,6 +246,11 @@ def run_case(case):
             t, fc, N.row(a) if isinstance(N, tt.Batch) else tt.row_assignment(N, a), 'satisfies' if (got >> a) & 1 else 'falsifies',
             'satisfies' if (want >> a) & 1 else 'does not satisfy (or selectors are not exactly-one in)'))
     labels = [name, fc['kind']]
+    nm_ = [x for x in (fc.get('names') or []) if x is not None]
+    if len(set(nm_)) < len(nm_) or any(x in ('x1', 'x2') for x in nm_):
+        labels.append('repeated-variable-names')
+    if t.get('call') == 'keyword' and not through_tool:
+        labels.append('keyword-call')
     if through_tool:
         labels.append('through-cnfgen')
         if not G.number_of_clauses():
@@ -320,7 +349,10 @@ def strat_formula(draw, maxn, maxw=3):
     n = draw(st.integers(1, max(1, min(4, maxn))))
     lit = st.integers(1, n).flatmap(lambda v: st.sampled_from([v, -v]))
     clauses = draw(st.lists(st.lists(lit, max_size=maxw), max_size=4))
-    return {'kind': 'hand', 'n': n, 'clauses': clauses}
+    fc = {'kind': 'hand', 'n': n, 'clauses': clauses}
+    if draw(st.integers(0, 3)) == 0:
+        fc['names'] = draw(st.lists(st.sampled_from([None, 'p', 'p', 'x1', 'x2', 'x_{1}', 'y', '']), min_size=n, max_size=n))
+    return fc
 
 
 @st.composite
@@ -365,6 +397,7 @@ def strat_case(draw):
                 cnt[u] = cnt.get(u, 0) + 1
         g['edges'] = keep
         t['B'] = g
+    t['call'] = draw(st.sampled_from(['positional', 'positional', 'keyword']))
     return {'F': F, 'T': t, 'via': draw(st.sampled_from(['lib', 'lib', 'cli']))}
 
 
@@ -393,6 +426,8 @@ def enum_cases(tier):
             yield {'F': F, 'T': t}
             if (fi + ti) % 4 == 0 or not F['clauses']:
                 yield {'F': F, 'T': t, 'via': 'cli'}       # the same through the command line
+            if (fi + ti) % 4 == 1:
+                yield {'F': F, 'T': dict(t, call='keyword')}       # the same with the documented parameter names as keywords
         n = F['n']
         for g in gg.all_bipartite_graphs(n, 2, Lmin=n):
             for name in ('xorcomp', 'majcomp'):
@@ -403,10 +438,10 @@ def enum_cases(tier):
 
 SUBCHECKS = [
     SubCheck('compose', run_case, strategy=strat_case, enumerate_cases=enum_cases, quick=1200, thorough=60000,
-             rule="CNFs with 1..4 variables, 0..4 clauses of width 0..3 (0..6 for arity<=2) (empty clause, unused variables, repeated/opposite literals) and small php/op/Tseitin instances x every exported substitution (k in 1..4, thresholds 0..k+1; a third of the cases through `cnfgen dimacs <file> -T ...` on a harness-written file, formulas without clauses included), if-then-else, lifting k<=3, flip, xor/maj compression with arbitrary bipartite graphs; complete slice: all formulas on <=2 variables with <=2 clauses x all transformations; oracle: tt(G) == F evaluated on the gadget-induced assignment for every assignment (lifting: and exactly one selector), variable count as documented; non-trivial: a non-empty clause and a non-constant gadget",
+             rule="CNFs with 1..4 variables (a quarter with caller-chosen labels that repeat or equal another variable's default name), 0..4 clauses of width 0..3 (0..6 for arity<=2) (empty clause, unused variables, repeated/opposite literals) and small php/op/Tseitin instances x every exported substitution (k in 1..4, thresholds 0..k+1; positional or with the documented parameter names as keywords; a third of the cases through `cnfgen dimacs <file> -T ...` on a harness-written file, formulas without clauses included), if-then-else, lifting k<=3, flip, xor/maj compression with arbitrary bipartite graphs; complete slice: all formulas on <=2 variables with <=2 clauses x all transformations; oracle: tt(G) == F evaluated on the gadget-induced assignment for every assignment (lifting: and exactly one selector), variable count as documented; non-trivial: a non-empty clause and a non-constant gadget",
              required_labels=BLOCK + LINEAR + ['ite', 'lift', 'flip', 'xorcomp', 'majcomp', 'empty-clause',
                                               'unused-variable', 'opposite-literals', 'threshold-at-boundary',
-                                              'variable-without-neighbours', 'php', 'op', 'through-cnfgen', 'through-cnfgen-no-clauses']),
+                                              'variable-without-neighbours', 'php', 'op', 'through-cnfgen', 'through-cnfgen-no-clauses', 'keyword-call', 'repeated-variable-names']),
     SubCheck('wide', run_case, enumerate_cases=enum_wide,
              rule="gadgets of arity 9..14 (xor), 9..33 (or, all-equal, not-all-equal, exactly-one), 7..10 (majority), 9..16 (threshold substitutions, constants near both ends) and xor/maj compression with left degree 9..11, on formulas with 1..3 variables; oracle: as in 'compose', evaluated on 300 sampled assignments whose per-block counts sit around the gadget's switching points (bit-parallel on the sample); non-trivial: as in 'compose'",
              required_labels=['arity>=9', 'xor', 'xorcomp', 'maj']),
